@@ -102,6 +102,7 @@ impl Tracee {
                         libc::dup2(devnull, 2);
                     }
                 }
+                libc::prctl(libc::PR_SET_PDEATHSIG, libc::SIGKILL);
                 libc::ptrace(libc::PTRACE_TRACEME, 0, 0, 0);
                 libc::raise(libc::SIGSTOP);
                 libc::execve(c_exe.as_ptr(), argv.as_ptr(), envp.as_ptr());
